@@ -1617,7 +1617,7 @@ fn generate(opts: &Opts) -> Vec<Case> {
     gen_sequences(&mut out, &mut rng, &pool, &lens);
     gen_tls(&mut out, &mut rng, if opts.thorough { 400 } else { 20 });
     for sv in [0usize, 1, TLS] {
-        for hold_ms in if opts.thorough { vec![50u64, 250, 450] } else { vec![250] } {
+        for hold_ms in if opts.thorough { vec![150u64, 250, 450] } else { vec![250] } {
             out.push(Case::AcceptErr { server: sv, hold_ms });
         }
     }
